@@ -46,12 +46,19 @@ class FaultyStore(object):
         if self.crash_at is not None and self.n == self.crash_at:
             if self.mode == "before":
                 raise InjectedCrash("crash before transfer %d" % self.n)
-            data = source.read()
             if self.mode == "partial":
                 import io
 
-                self.inner.put_item(*path, source=io.BytesIO(data[: len(data) // 2]))
+                # a transfer that dies half way: only the first half of the source has been read
+                try:
+                    size = os.fstat(source.fileno()).st_size
+                    data = source.read(size // 2)
+                except (AttributeError, OSError):
+                    data = source.read()
+                    data = data[: len(data) // 2]
+                self.inner.put_item(*path, source=io.BytesIO(data))
                 raise InjectedCrash("crash during transfer %d" % self.n)
+            data = source.read()
             if self.mode == "after":
                 import io
 
@@ -284,18 +291,22 @@ def refresh_check(part):
             pass
 
     pipeline.IMAGE_SOURCE_CLASS_LOADERS["_verif_local"] = lambda: Src
-    names = NAMES[:3]
+    # a realistic file set: both index files, the thumbnail and a tile
+    names = ["index.wtml", "index_rel.wtml", "thumb.jpg", "L0X0Y0.png"]
+    combos = [(None, None)] + [(k, m) for k in range(1, len(names) + 1) for m in ("before", "partial", "after")]
     with scratch("c18r") as d:
-        for crash_at, mode in [(1, "partial"), (2, "before"), (2, "after"), (3, "before"), (3, "partial"), (None, None)]:
+        for order in itertools.permutations(names):
+          for crash_at, mode in combos:
             part.case(nontrivial=crash_at is not None)
-            cfg = {"refresh": True, "crash_at": crash_at, "mode": mode}
+            part.count("refresh_runs")
+            cfg = {"refresh": True, "crash_at": crash_at, "mode": mode, "listdir_order": list(order)}
             work, store = setup_work(d, {"img1": names})
             with open(os.path.join(store, "toasty-pipeline-config.yaml"), "w") as f:
                 f.write("source_type: _verif_local\nverif_local:\n  x: 1\n")
             mgr = PipelineManager(work)
             mgr._pipeio = FaultyStore(mgr._pipeio, crash_at, mode)
             try:
-                with quiet(), ListdirOrder({os.path.realpath(os.path.join(work, "approved", "img1")): [names[1], names[0], names[2]]}):
+                with quiet(), ListdirOrder({os.path.realpath(os.path.join(work, "approved", "img1")): list(order)}):
                     mgr.publish()
             except InjectedCrash:
                 pass
